@@ -34,7 +34,7 @@ var profC01 = ConcProfile{
 // in every order) with a mix of bars with and without synchronised decorators.
 var profC01Seq = Profile{
 	MaxBars: 7, MinBars: 2, MaxSteps: 40, Refresh: []string{"manual", "autoinj"}, QLens: []int{-1, 0, 1, -2, -3},
-	Pop: 25, Queue: 20, Prio: true, Text: 1, Rm: 45, NoPop: 15, AbortW: 3, TicksW: 10,
+	Pop: 25, Queue: 20, LateSuccW: 2, Prio: true, Text: 1, Rm: 45, NoPop: 15, AbortW: 3, TicksW: 10,
 	SyncDecors: 1, PlainDecors: 1, Wraps: true, NoDecorPct: 30, ChurnW: 4, Fillers: []string{"tag", "nop"}, LateAdd: true, Cancel: 8, Faults: 8, Listeners: 20, DisabledPct: 6, Delay: 12, DelayNever: 50, AddTick: 10, Peer: 30, BarePct: 12,
 }
 
